@@ -31,8 +31,9 @@ from ..runner import say, VERIF, OUT, EVID, load_known
 
 LEVEL = "fault_enumeration"
 SIZES = {  # children x sessions per child, alloc workloads
-    "quick": {"children": 16, "sessions": 16, "workloads": 16},
-    "thorough": {"children": 64, "sessions": 120, "workloads": 512},
+    "quick": {"children": 16, "sessions": 16, "workloads": 16, "big": 32},
+    "thorough": {"children": 64, "sessions": 120, "workloads": 512,
+                 "big": 768},
 }
 CHILD_TIMEOUT = {"quick": 600, "thorough": 3000}
 RULE = ("(a) for each seeded workload (n forecasts x m members, ties, obs "
@@ -43,7 +44,9 @@ RULE = ("(a) for each seeded workload (n forecasts x m members, ties, obs "
         "points over a boundary-biased pool (lengths 0,1,2,3,5,17,64,300; "
         "NaN/inf/negative/huge; 1x1 grids; one-cell catchments; cell numbers "
         "-1,0,n-1,n; nprint 0; maxnan<0; nval buffers 1..; AR orders 0..11) "
-        "in sanitised children; a case is non-trivial when the kernel was "
+        "in sanitised children; (c) single calls with lengths / cell counts "
+        "46341..92682 where products of sizes leave 32-bit range; a case is "
+        "non-trivial when the kernel was "
         "entered (mask applied with >=1 failed allocation, or a session call "
         "that returned or raised from inside hydrodiy); distinct = distinct "
         "(workload, function, mask) triples plus distinct session digests")
@@ -125,7 +128,7 @@ def classify(res):
 
 
 def last_call(prog):
-    calls = [p for p in prog if p and p[0] in ("CALL", "MASK", "KTH", "STACK")]
+    calls = [p for p in prog if p and p[0] in ("CALL", "MASK", "KTH", "STACK", "BIG")]
     return calls[-1] if calls else None
 
 
@@ -204,6 +207,10 @@ def replay(path):
                     "sessions": [js["session"]], "keep": js["keep"],
                     "optimize": js.get("optimize", False),
                     "progress": str(sdir / "replay.log")}
+        elif js["part"] == "big":
+            args = {"mode": "big", "seed": js["seed"],
+                    "big": [js["workload"]],
+                    "progress": str(sdir / "replay.log")}
         else:
             args = {"mode": "alloc", "seed": js["seed"],
                     "workloads": [js["workload"]],
@@ -248,6 +255,12 @@ def run_check(tier, seed):
                      "sessions": list(range(j * per, (j + 1) * per)),
                      "optimize": False,   # see DESIGN 10: python -O is out of scope
                      "progress": str(sdir / f"sess-{j}.log")})
+    nbig = sz["big"]
+    nbc = 8 if tier == "quick" else 16
+    for j in range(nbc):
+        jobs.append({"mode": "big", "seed": seed,
+                     "big": list(range(j, nbig, nbc)),
+                     "progress": str(sdir / f"big-{j}.log")})
     results = []
     pending = list(jobs)
     violations = []     # (sig, job args, result)
@@ -281,6 +294,13 @@ def run_check(tier, seed):
                     if rest:
                         b = dict(a)
                         b["sessions"] = rest
+                        b["progress"] = a["progress"] + f".r{rounds}"
+                        pending.append(b)
+                if a["mode"] == "big" and lc is not None:
+                    rest = a["big"][a["big"].index(lc[1]) + 1:]
+                    if rest:
+                        b = dict(a)
+                        b["big"] = rest
                         b["progress"] = a["progress"] + f".r{rounds}"
                         pending.append(b)
         if harness:
@@ -343,6 +363,15 @@ def run_check(tier, seed):
                     probes["session_calls_returned"] += p[3]
                     probes["session_calls_raised"] += p[4]
 
+        nbigdone = 0
+        for a, r in results:
+            if a["mode"] != "big":
+                continue
+            for p in r["progress"]:
+                if p[0] == "BIGRES":
+                    nbigdone += 1
+                    entry_calls["big:" + p[2]] += 1
+                    probes["big_length_calls_" + p[4].split(":")[0]] += 1
         sigc = collections.Counter(v[0] for v in violations)
         if sigc:
             say("  violation signatures: " + ", ".join(
@@ -374,14 +403,29 @@ def run_check(tier, seed):
                       "sanitizer_report": detail[-4000:],
                       "replay_cmd": "./vcheck replay <this file>"}
                 path = OUT / "replays" / f"C05-{seed}-s{idx}.json"
+            elif a["mode"] == "big":
+                js = {"property": "C05", "part": "big", "seed": seed,
+                      "workload": lc[1] if lc else a["big"][0],
+                      "signature": sig, "last_record": lc,
+                      "sanitizer_report": detail[-4000:]}
+                path = OUT / "replays" / f"C05-{seed}-b{js['workload']}.json"
             else:
                 js = {"property": "C05", "part": "alloc", "seed": seed,
                       "workload": lc[1] if lc else 0, "signature": sig,
                       "last_record": lc, "sanitizer_report": detail[-4000:]}
                 path = OUT / "replays" / f"C05-{seed}-w{js['workload']}.json"
             path.write_text(json.dumps(js, indent=1))
-            # confirm in a fresh child
-            if replay_quiet(path, sig, env, sdir):
+            # confirm in a fresh child; a minimised call list that does not
+            # reproduce (heap-layout dependent defects) falls back to the
+            # whole session prefix
+            ok = replay_quiet(path, sig, env, sdir)
+            if not ok and a["mode"] == "sessions":
+                js["keep"] = list(range(lc[2] + 1))
+                js["minimised"] = False
+                path.write_text(json.dumps(js, indent=1))
+                ok = replay_quiet(path, sig, env, sdir) or \
+                    replay_quiet(path, sig, env, sdir)
+            if ok:
                 say(f"VIOLATION property=C05 replay={path}")
                 say(f"  signature={sig} last={json.dumps(lc)[:300]}")
                 replays.append(str(path))
@@ -420,7 +464,8 @@ def run_check(tier, seed):
                                 r["progress"][:10]})
                 break
         cov = {
-            "evaluations": masks + kth + ncalls,
+            "evaluations": masks + kth + ncalls + nbigdone,
+            "big_length_calls": nbigdone,
             "distinct_nontrivial": len(triples) + len(sdig),
             "rule": RULE, "samples": samples,
             "exhaustive": True,
@@ -473,6 +518,9 @@ def replay_quiet(path, sig, env, sdir):
                 "sessions": [js["session"]], "keep": js["keep"],
                 "optimize": js.get("optimize", False),
                 "progress": str(sdir / f"confirm-{js['session']}.log")}
+    elif js["part"] == "big":
+        args = {"mode": "big", "seed": js["seed"], "big": [js["workload"]],
+                "progress": str(sdir / f"confirm-b{js['workload']}.log")}
     else:
         args = {"mode": "alloc", "seed": js["seed"],
                 "workloads": [js["workload"]],
